@@ -31,6 +31,27 @@ def encoder_options(repo, enc):
     return opts
 
 
+def string_path_flags(repo, enc):
+    """Boolean constructor options of encoder class *enc* that the string-writing methods read (self.<option> inside
+    encode_string / needs_quotes / the is_* predicates of its MRO): each value of such an option is a configuration of
+    its own for the bare-string rules."""
+    opts = encoder_options(repo, enc)
+    flags = []
+    for name, dflt in opts.items():
+        if not isinstance(dflt, bool):
+            continue
+        for c in repo.mro(enc):
+            if c.startswith("ext:"):
+                continue
+            for mname, fn in repo.classes[c].methods.items():
+                if mname in ("encode_string", "needs_quotes") or mname.startswith("is_"):
+                    if any(isinstance(n, ast.Attribute) and n.attr == name and isinstance(n.value, ast.Name) and n.value.id == "self"
+                           and isinstance(n.ctx, ast.Load) for n in ast.walk(fn)):
+                        if (name, dflt) not in flags:
+                            flags.append((name, dflt))
+    return flags
+
+
 def allowed_syms(repo, gcls):
     t, f, e = interval.CharAllowed(repo, gcls).accepted()
     return SL.chars_where(lambda c: any(a <= ord(c) <= b for a, b in t.ivs))
@@ -39,12 +60,13 @@ def allowed_syms(repo, gcls):
 class Pairing:
     """Languages of one writer/reader pairing."""
 
-    def __init__(self, repo, enc, gcls=None, dcls=None):
+    def __init__(self, repo, enc, gcls=None, dcls=None, overrides=None):
         self.repo, self.enc = repo, enc
         g0, d0 = encoder_pairing(repo, enc)
         self.gcls, self.dcls = gcls or g0, dcls or d0
         self.grammar = tables.grammar_instance(repo, self.gcls)
         opts = encoder_options(repo, enc)
+        opts.update(overrides or {})
         self.ctx = PE.Ctx(repo, self.grammar, self.dcls, enc, width=opts.get("width", 80), options=opts)
         self.alpha = SL.star(allowed_syms(repo, self.gcls))
 
